@@ -51,6 +51,9 @@ def subjects(tier):
     for g in ("sm", "o2j"):
         for pre in PRE:
             out.append(("set", g, "plain", pre))
+    # a StepMania mapset built in memory whose file offset was never set (None, the declared default): the sample window still scales
+    out.append(("set", "sm", "offset-unset", None))
+    out.append(("set", "sm", "offset-unset", "rate2"))
     return out
 
 
@@ -73,7 +76,9 @@ def build(kind, g, v, pre):
         x = starts.make(g, v)
     else:
         x = starts.make_set(g)
-        if g == "sm":
+        if g == "sm" and v == "offset-unset":
+            x.offset = None
+        elif g == "sm":
             # a consistent StepMania mapset whose beat 0 is not at 0 ms: shift everything, file offset = first tempo point
             for m in x.maps:
                 for l in m.objs.values():
@@ -254,6 +259,12 @@ def check_file(kind, g, y, site, case, ctx):
     elif kind == "set":
         ms = y
         maps = y.maps
+        if g == "sm" and y.offset is None:
+            # the file offset was never set: set it as a user would before writing (beat 0 = first tempo point)
+            import copy
+            ms = copy.deepcopy(y)
+            ms.offset = float(min(maps[0].bpms.offset.tolist(), default=0.0))
+            maps = ms.maps
     else:
         ms = y
         maps = [y]
